@@ -74,6 +74,26 @@ def worker(task):
             out['error'] = f'{type(e).__name__}: {e}'
         out['wall_s'] = round(time.time() - t0, 3)
         return out
+    if fq.startswith('eval:'):
+        # table / layout fact decided by evaluating the imported repository modules (back end 'eval')
+        from . import reflect
+        w = C.EVALFACTS[fq[5:]]
+        try:
+            for name, ok, detail in w['fn'](reflect.get()):
+                out['results'].append({
+                    'name': f'eval:{fq[5:]}/{name}', 'props': list(w['props']),
+                    'status': 'discharged' if ok else 'refuted',
+                    'time_s': 0.0, 'backend': 'eval', 'reason': detail, 'trail': [], 'ob_kind': 'eval',
+                    'func': fq, 'receiver': None, 'func_kind': 'eval', 'lineno': None,
+                    'goal_str': w['why'], 'model_str': detail,
+                    'entry': {}, 'locals': {}, 'allowed_exceptions': [], 'static_violation': not ok,
+                    'eval_witness': not ok})
+            out['info'] = {'paths_normal': 1, 'paths_raise': 0, 'vacuous': False, 'gen_s': 0.0, 'solve_s': 0.0,
+                           'alias_sites': [], 'func_kind': 'eval'}
+        except Exception as e:
+            out['error'] = f'{type(e).__name__}: {e}'
+        out['wall_s'] = round(time.time() - t0, 3)
+        return out
     try:
         fv = FunctionVerifier(_REPO)
         if fq.startswith('lemma:'):
@@ -155,6 +175,9 @@ def select_tasks(prop, C):
     for field, w in C.WRITERS.items():
         if prop is None or prop in w['props']:
             tasks.append(('writers:' + field, None))
+    for name, w in C.EVALFACTS.items():
+        if prop is None or prop in w['props']:
+            tasks.append(('eval:' + name, None))
     return tasks
 
 
@@ -191,7 +214,7 @@ def main(argv):
     if args.func is not None:
         tasks = []
         for fq in args.func:
-            if fq.startswith('lemma:') or fq.startswith('writers:'):
+            if fq.startswith(('lemma:', 'writers:', 'eval:')):
                 tasks.append((fq, None))
                 continue
             c = C.CONTRACTS[fq]
